@@ -83,6 +83,14 @@ theorem path_past_the_data (m : List (Str × Value)) (xs : List Value) (k : Str)
   · simp [resolve, resolveStep, hk, resolve_none]
   · simp [resolve, resolveStep, List.getElem?_eq_none hn, resolve_none]
 
+/-- the text `base.s₁.s₂` is the path `s₂` applied to the expression `base.s₁`: the parser's left-nested index nodes and the
+    list of steps are the same thing, so `path_resolves` / `path_composes` speak about every way of splitting a path -/
+theorem pathExpr_append (base : Expr) (s1 s2 : List Index) :
+    pathExpr base (s1 ++ s2) = pathExpr (pathExpr base s1) s2 := by
+  induction s1 generalizing base with
+  | nil => rfl
+  | cons i rest ih => simp only [List.cons_append, pathExpr]; exact ih _
+
 /-! non-vacuity -/
 def demoFacts : Value :=
   .map [(['A'], .int 1), (['a'], .vec [.int 10, .map [(['b'], .str ['x'])]]), ("facts".toList, .int 2)]
